@@ -294,6 +294,11 @@ def check_state(scn, st, corrupt=None, result=None):
     cls, msg = oracle.structural_cls(t4, st.options)
     if cls:
         return verdict(False, st, cls=cls, msg=msg + '\n' + st.deck_text + r.body[:1500], out=sha(r.body))
+    if getattr(st, 'shift', None) is not None:
+        # a deck written far from the origin is judged in the coordinates of the deck at the origin
+        t4 = t4read.pullback(t4, st.shift, 1.0)
+        if t4 is None:
+            raise RuntimeError('a shifted deck produced a surface kind that cannot be pulled back')
     P, info = oracle.probe_points(t4, st.all_ref_planes())
     if not info['complete']:
         return verdict(False, st, cls={'kind': 'non-plane-surface'}, msg='curved surface in a plane deck',
